@@ -151,6 +151,21 @@ class Paths:
         sol = dsp(inp)
         return f, sol[out]
 
+    def numpy(self, op, values):
+        """Operands as numpy scalars: what an operator receives when another
+        function computed its operand (SUM(..)<COUNT(..) is a numpy.bool_)."""
+        import numpy as np
+        conv = []
+        for v in values:
+            if isinstance(v, bool):
+                v = np.bool_(v)
+            elif isinstance(v, float):
+                v = np.float64(v)
+            elif isinstance(v, str) and xl.kind(v) == "text":
+                v = np.str_(v)
+            conv.append(v)
+        return self.cell(op, conv)
+
 
 def judge(ctx, op, values, path, formula, run):
     case = {'kind': 'op', 'op': op, 'path': path,
@@ -229,6 +244,10 @@ def check_case(case, ctx, paths=None):
             return r
         f = None
         got = judge(ctx, op, values, 'literal', _lit_text(op, entries), run)
+    elif path == 'numpy':
+        def run():
+            return paths.numpy(op, values)[1]
+        got = judge(ctx, op, values, 'numpy', _cell_text(op), run)
     else:
         def run():
             return paths.cell(op, values)[1]
@@ -281,7 +300,7 @@ def plan(tier, seed):
     n = len(POOL)
     specs = []
     shards = 14
-    for path in ('literal', 'cell'):
+    for path in ('literal', 'cell', 'numpy'):
         for i in range(shards):
             specs.append({'kind': 'cross', 'path': path, 'part': i,
                           'parts': shards})
@@ -312,7 +331,7 @@ def run(spec, ctx):
     elif k == 'unary':
         for e in POOL:
             for op in ('u-', 'u+', '%'):
-                for path in ('literal', 'cell'):
+                for path in ('literal', 'cell', 'numpy'):
                     case = {'kind': 'op', 'op': op, 'path': path,
                             'operands': [e[0]]}
                     check_case(case, ctx, paths)
@@ -351,7 +370,7 @@ def finalize(agg, tier):
     c, inc = agg['counters'], []
     n = len(POOL)
     want = n * n * len(BIN)
-    for p in ('literal', 'cell'):
+    for p in ('literal', 'cell', 'numpy'):
         if c.get('judge.' + p, 0) < want:
             inc.append('path %s judged %d < %d cross-product cases' % (
                 p, c.get('judge.' + p, 0), want))
@@ -365,5 +384,6 @@ def finalize(agg, tier):
     return {'inconclusive': inc, 'coverage': {
         'exhaustive': True,
         'exhaustive_note': 'operand pool cross product x 12 binary operators '
-                           'x 2 paths; pool x 3 unary operators x 2 paths',
+                           'x 3 paths (literals, python values, numpy scalars); pool x 3 '
+                           'unary operators x 3 paths',
         'pool_size': n, 'kind_cube_cells': len(cube)}}
